@@ -190,6 +190,15 @@ def run (cfg : Cfg) : St → List Act → Option St
 def framed (lens : Nat → Nat) (cs : List Chunk) : Bool :=
   (cs.all fun c => c.start == 0 && decide (0 < c.n) && decide (c.n ≤ lens c.id)) && decide (cs.map (·.id)).Nodup
 
+/-- the monitor's online check of a byte stream: pieces are appended one at a time and after every piece the
+    stream so far must be `framed`. `none` = rejected. (`Proofs/C07.lean`: it accepts exactly when every
+    prefix of the wire is framed, and it accepts the wire of every reachable state.) -/
+def scanFrom (lens : Nat → Nat) : List Chunk → List Piece → Option (List Chunk)
+  | cs, [] => some cs
+  | cs, p :: ps => if framed lens (addPiece cs p) then scanFrom lens (addPiece cs p) ps else none
+
+def scan (lens : Nat → Nat) (wire : List Piece) : Option (List Chunk) := scanFrom lens [] wire
+
 /-- "after a partial write nothing": only the NEWEST chunk may be incomplete -/
 def onlyLastTorn (lens : Nat → Nat) (cs : List Chunk) : Bool :=
   cs.tail.all fun c => c.n == lens c.id
